@@ -383,6 +383,10 @@ type c10HeaderCase struct {
 	// EmptyValue: the timeout header is present and has no value (an empty
 	// number, which the property lists as malformed - not an absent header)
 	EmptyValue bool `json:"empty_value,omitempty"`
+	// ServerDeadline: the request context the server hands to ServeHTTP already
+	// has a deadline that far away (middleware, BaseContext, http.TimeoutHandler);
+	// the handler's deadline is then the earlier of the two.
+	ServerDeadline time.Duration `json:"server_deadline,omitempty"`
 }
 
 func c10HeaderCheck(c *ev.Collector, k c10HeaderCase) {
@@ -409,10 +413,17 @@ func c10HeaderCheck(c *ev.Collector, k c10HeaderCase) {
 	req.ProtoMajor, req.ProtoMinor, req.Proto = 2, 0, "HTTP/2.0"
 	req.Header.Set("Content-Type", ct)
 	req.Header[hdrName] = []string{k.Value}
-	rec := httptest.NewRecorder()
-	g := Guarded(func() { h.ServeHTTP(rec, req) })
 	key := fmt.Sprintf("header/%s/%s/%q", k.Proto, k.Kind, k.Value)
 	tags := []string{"proto=" + k.Proto.String(), "side=handler"}
+	if k.ServerDeadline > 0 {
+		sctx, cancel := context.WithTimeout(req.Context(), k.ServerDeadline)
+		defer cancel()
+		req = req.WithContext(sctx)
+		key += fmt.Sprintf("/server-deadline=%v", k.ServerDeadline)
+		tags = append(tags, "server-deadline")
+	}
+	rec := httptest.NewRecorder()
+	g := Guarded(func() { h.ServeHTTP(rec, req) })
 	viol := func(clause, outcome, format string, args ...any) {
 		c.Violation("TestC10", clause, outcome, tags, k, "%s: "+format, append([]any{key}, args...)...)
 	}
@@ -447,6 +458,13 @@ func c10HeaderCheck(c *ev.Collector, k c10HeaderCase) {
 			return
 		}
 		c.Outcome("rejected")
+	case unbounded && k.ServerDeadline > 0:
+		if !probe.ran || !probe.has || probe.deadline.Sub(probe.now) != k.ServerDeadline {
+			viol("never-longer", "server-deadline-lost", "timeout %q is unbounded, the server's own deadline is %v: handler deadline in %v (present=%v)", k.Value, k.ServerDeadline, probe.deadline.Sub(probe.now), probe.has)
+			c.Outcome("violation")
+			return
+		}
+		c.Outcome("honoured")
 	case unbounded:
 		if !probe.ran || probe.has {
 			viol("honoured-exactly", "bounded", "timeout %q must be treated as unbounded: ran=%v deadline present=%v (%s)", k.Value, probe.ran, probe.has, code)
@@ -459,6 +477,9 @@ func c10HeaderCheck(c *ev.Collector, k c10HeaderCase) {
 			viol("honoured-exactly", "rejected", "grammatical timeout %q was not honoured: interceptors did not run (%s, HTTP %d)", k.Value, code, rec.Code)
 			c.Outcome("violation")
 			return
+		}
+		if k.ServerDeadline > 0 && k.ServerDeadline < want {
+			want = k.ServerDeadline
 		}
 		if !probe.has || probe.deadline.Sub(probe.now) != want {
 			viol("honoured-exactly", "differs", "timeout %q: handler deadline in %v (present=%v), want %v", k.Value, probe.deadline.Sub(probe.now), probe.has, want)
@@ -741,6 +762,26 @@ func TestC10(t *testing.T) {
 				Bubble(t, func() { c10HeaderCheck(c, k) })
 				if idx%4999 == 0 {
 					c.Sample(map[string]any{"side": "handler", "proto": p.String(), "header": s})
+				}
+			}
+		}
+	}
+	// the server's own request context already has a deadline: later than, equal to, sooner than the client's
+	for _, p := range AllProtos {
+		for _, kind := range AllKinds {
+			vals := []string{"5S", "5000m", "99999999H"}
+			if p == PConnect {
+				vals = []string{"5000", "1", "9999999999"}
+			}
+			for _, v := range vals {
+				for _, sd := range []time.Duration{time.Hour, 5 * time.Second, time.Second, time.Millisecond, 5*time.Second + time.Nanosecond, 5*time.Second - time.Nanosecond} {
+					idx++
+					if !ev.Mine(idx) {
+						continue
+					}
+					k := c10HeaderCase{Proto: p, Kind: kind, Value: v, ServerDeadline: sd}
+					c.Case(fmt.Sprintf("header/%s/%s/%q/server-deadline=%v", p, kind, v, sd), true)
+					Bubble(t, func() { c10HeaderCheck(c, k) })
 				}
 			}
 		}
